@@ -325,7 +325,7 @@ func checkC11(q c11Req, text, verdict, key string, out c11Outcome) string {
 
 func TestC11(t *testing.T) {
 	rec := evid.For("C11")
-	rec.Rule = "raw HTTP/1.x request text built from a valid upgrade request by 0-2 field mutations (method, HTTP version, Connection / Upgrade token lists incl. case, several tokens, several lines and near-misses, Sec-WebSocket-Version values, key variants: 15/17/32/0 bytes, bad alphabet, URL-safe alphabet, missing padding, missing, duplicated), offered x supported subprotocol lists; parsed by http.ReadRequest and given to Accept with a recording hijacker (in one case of twelve with a ResponseWriter that has no Hijack method: never a 101); an independent predicate over the raw text says valid / invalid / either. A second stage sends the text plus pipelined client frames in one write to a real net/http server on loopback. Non-trivial: exactly one field mutated, or a valid request with multi-token/multi-line headers or a subprotocol match. distinct = hash(request text, supported list)."
+	rec.Rule = "raw HTTP/1.x request text built from a valid upgrade request by 0-2 field mutations (method, HTTP version, Connection / Upgrade token lists incl. case, several tokens, several lines and near-misses, Sec-WebSocket-Version values, key variants: 15/17/32/0 bytes, bad alphabet, URL-safe alphabet, missing padding, missing, duplicated), offered x supported subprotocol lists; parsed by http.ReadRequest (for valid requests, in half of the cases, the optional white space a parser strips is put back around the key: a request built by something other than net/http) and given to Accept with a recording hijacker (in one case of twelve with a ResponseWriter that has no Hijack method: never a 101); an independent predicate over the raw text says valid / invalid / either. A second stage sends the text plus pipelined client frames in one write to a real net/http server on loopback. Non-trivial: exactly one field mutated, or a valid request with multi-token/multi-line headers or a subprotocol match. distinct = hash(request text, supported list)."
 	checkProp(t, func(rt *rapid.T) {
 		q := genC11(rt)
 		text := q.render()
@@ -334,6 +334,15 @@ func TestC11(t *testing.T) {
 		if err != nil {
 			rec.Class("unparsable-by-net/http", 1)
 			return
+		}
+		if pad := rapid.SampledFrom([]string{"", "", "", " ", "\t", "  "}).Draw(rt, "keyPadDirect"); pad != "" && verdict == "valid" && len(r.Header["Sec-Websocket-Key"]) == 1 {
+			// a request that did not come through net/http's parser (a framework's adapter, a hand-built
+			// *http.Request): optional white space is still around the field value. The library strips it
+			// before it validates the key, so it may upgrade (or refuse) - but a 101 must carry the accept
+			// value of the key the client sent, i.e. of the value without that white space
+			r.Header["Sec-Websocket-Key"][0] = pad + r.Header["Sec-Websocket-Key"][0] + pad
+			verdict = "either"
+			rec.Class("key-with-optional-white-space-left-by-the-parser", 1)
 		}
 		if rapid.IntRange(0, 11).Draw(rt, "plainWriter") == 0 {
 			// a ResponseWriter that cannot be hijacked (middleware wrapper, HTTP/2, TimeoutHandler): no
